@@ -67,7 +67,7 @@ class Gen:
     def sub(self, in_body=False):
         r = self.rng
         once = 1 if r.random() < (0.45 if self.focus in ("C04",) else 0.25) else 0
-        asy = 1 if r.random() < 0.25 else 0
+        asy = 1 if r.random() < (0.65 if self.focus == "C06" else 0.25) else 0
         seq = 1 if r.random() < (0.7 if self.focus == "C07" else 0.2) else 0
         hid = r.randrange(12) if r.random() < 0.5 else r.choice([0, 1, 6, 7])
         body = r.randrange(self.nbodies)
@@ -116,7 +116,7 @@ class Gen:
         lines = []
         opts = []
         pool = ["bl", "bc", "al", "ac", "panich", "perrh", "obs"]
-        p_store = {"C09": 1.0, "C13": 1.0, "C20": 0.7}.get(self.focus, 0.35)
+        p_store = {"C09": 1.0, "C13": 1.0, "C20": 0.7, "C06": 0.7}.get(self.focus, 0.35)
         for o in pool:
             p = 0.5
             if self.focus == "C20" and o == "obs": p = 1.0
@@ -129,7 +129,7 @@ class Gen:
             opts.append("store1")
             if r.random() < (0.3 if self.focus == "C09" else 0.05):
                 opts.append(r.choice(["store2", "store1"]))
-        pt = any(o.startswith("store") for o in opts) and r.random() < (0.5 if self.focus in ("C13", "C20") else 0.15)
+        pt = any(o.startswith("store") for o in opts) and r.random() < (0.5 if self.focus in ("C13", "C20", "C06") else 0.15)
         if pt:
             opts.append("ptimeout")
         if self.focus == "C20" and "obs" in opts and r.random() < 0.4:
@@ -180,6 +180,7 @@ PROJ = {
     "C01": ("enter", "exit", "filt", "has", "count", "unsub"),
     "C04": ("enter", "count", "filt"),
     "C05": ("enter", "exit", "panich", "count"),
+    "C06": ("enter", "exit"),
     "C07": ("enter", "exit"),
     "C08": ("enter", "exit", "hook"),
     "C09": ("append", "log", "enter"),
@@ -214,6 +215,8 @@ def nontrivial(prop, lines, impl):
         return any(" 1 " in l[8:] for l in lines if l.startswith("sub")) and any(l.startswith("pub") and l.endswith("dead") for l in lines) and len(enters) >= 1
     if prop == "C05":
         return any(l.startswith("panich") for l in impl) or (any("panic" in l for l in lines) and len(enters) >= 2)
+    if prop == "C06":
+        return sum(1 for l in enters if l.endswith(" 1")) >= 2
     if prop == "C07":
         return any(l.startswith("sub") and l.split()[5] == "1" for l in lines) and len(enters) >= 2
     if prop == "C08":
